@@ -1,5 +1,6 @@
 """Which harness modules decide which property."""
 PROPERTIES = {
+    "C06": ["harness.C06_stop"],
     "C04": ["harness.C04_incremental"],
     "C05": ["harness.C05_protocol"],
     "C07": ["harness.C07_subscribe"],
